@@ -2,7 +2,7 @@
 (***************************************************************************)
 (* Validation of server-handshake observations against SaslServer (C16).   *)
 (* One ndjson line = one run of the real server handshake over a scripted  *)
-(* socket: cfg, the chunks the client sent, every byte the server wrote,   *)
+(* socket: cfg, the byte stream the client sent (and where it was cut into reads), every byte the server wrote,   *)
 (* the outcome (authenticated | failed | waiting | panic).  Each line is an *)
 (* initial state (independent observations).  Everything is read from the   *)
 (* *bytes*: the stream is split into lines and commands by Sasl, the server's*)
@@ -20,9 +20,6 @@ EXTENDS SaslServer, Json, IOUtils
 
 Rec == ndJsonDeserialize(IOEnv.TRACE)
 VARIABLE l
-
-RECURSIVE FlatB(_)
-FlatB(ss) == IF ss = <<>> THEN <<>> ELSE Head(ss) \o FlatB(Tail(ss))
 
 \* what was observed, read once per line of the file into state variables:
 VARIABLES cmds,     \* the commands the client sent (complete lines only), as the server must read them
@@ -69,7 +66,7 @@ ObsSt(rp, oc) == CASE oc = "authenticated" -> "Done" [] oc = "failed" -> "Failed
 TInit ==
   /\ l \in 1..Len(Rec)
   /\ LET r == Rec[l]
-         strm == FlatB(r.chunks)
+         strm == r.stream
          hasNul == strm # <<>> /\ strm[1] = NUL
          lns == TakeLines(IF hasNul THEN Tail(strm) ELSE strm, 100000).lines
          cm == [i \in 1..Len(lns) |->
